@@ -52,7 +52,7 @@ fn build_limit_script(rng: &mut Rng, id: usize, limit: usize) -> (Vec<u8>, Vec<(
         let tag = format!("c{}r{}", id, k);
         let cands: Vec<u64> = vec![0, 1, limit.saturating_sub(1) as u64, limit as u64, limit as u64 + 1, (limit as u64).saturating_mul(2) + 3, 4294967295];
         let n = (*rng.pick(&cands)).min(4294967295);
-        let method = if n == 0 && rng.chance(1, 2) { "GET" } else if rng.chance(1, 2) { "PUT" } else { "PATCH" };
+        let method = *rng.pick(&["GET", "PUT", "PATCH"]);
         let mut head = format!("{} /{} HTTP/1.1\r\n", method, tag);
         let expects = n > 0 && rng.chance(1, 4);
         if expects {
